@@ -105,6 +105,59 @@ def history(kind, maxlevel):
     return recs
 
 
+def short_histories(kind, maxdiv, alphabet, length, rng, limit):
+    """Every subdivision history matters (C18 quantifies over histories): sequences over
+       D  divide_edges() without looking at the object afterwards
+       g  get_nodes(N = small)      G  get_nodes()           (both projection flags)
+       h  get_half_of_hypercube(N = small)   H  get_half_of_hypercube()   (hypercube only)
+    each on a FRESH object, ending with a full snapshot."""
+    import itertools
+    import molgri.space.polytopes as P
+    seqs = [s for L in range(1, length + 1) for s in itertools.product(alphabet, repeat=L) if s.count("D") <= maxdiv and s.count("D") >= 1]
+    if len(seqs) > limit:
+        seqs = rng.sample(seqs, limit)
+    ir, ip = Interner(), Interner()
+    recs = []
+    for seq in seqs:
+        with quiet():
+            p = getattr(P, KINDS[kind])()
+        recs.append(snapshot(p, kind, 0, "create"))
+        recs[-1]["history"] = "".join(seq)
+        k = 0
+        for a in seq:
+            if a == "D":
+                k += 1
+                e = dict(ev="divide_blind", err="", history="".join(seq))
+                try:
+                    with quiet():
+                        p.divide_edges()
+                except Exception as ex:
+                    e["err"] = type(ex).__name__
+                recs.append(e)
+                if e["err"]:
+                    break
+            elif a in "gG":
+                n = p.G.number_of_nodes()
+                for r in gets(p, kind, ir, ip, [3 if a == "g" else n], f"history {''.join(seq)}"):
+                    recs.append(r)
+            else:
+                for projection in (False, True):
+                    e = dict(ev="half", n=(3 if a == "h" else -1), proj=projection, rows=[], err="", history="".join(seq))
+                    try:
+                        with quiet():
+                            arr = np.array(p.get_half_of_hypercube(N=(3 if a == "h" else None), projection=projection))
+                        it = ip if projection else ir
+                        e["rows"] = [it(r) for r in arr]
+                    except Exception as ex:
+                        e["err"] = type(ex).__name__
+                    recs.append(e)
+        else:
+            s_ = snapshot(p, kind, k, "snap")
+            s_["history"] = "".join(seq)
+            recs.append(s_)
+    return recs, len(seqs)
+
+
 def run(ctx: Ctx):
     thorough = ctx.tier == "thorough"
     plan = {"cube3D": 4, "ico": 4, "cube4D": 2} if thorough else {"cube3D": 3, "ico": 3, "cube4D": 1}
@@ -137,4 +190,22 @@ def run(ctx: Ctx):
         snap = snap[0]
         ctx.sample(dict(kind=kind, event="divide", lvl=snap["lvl"], n_nodes=len(snap["nodes"]), n_edges=len(snap["edges"]),
                         first_nodes=snap["nodes"][:3], levels_tail=snap["levels"][-3:]))
+    # short histories on fresh objects: divisions without a look in between, getters in every position
+    import random as _r
+    rng = _r.Random(ctx.seed)
+    hplan = [("cube3D", 2, "DgG", 4, 40), ("ico", 2, "DgG", 4, 40), ("cube4D", 1, "DgGhH", 3, 45)]
+    if thorough:
+        hplan = [("cube3D", 3, "DgG", 5, 150), ("ico", 3, "DgG", 5, 150), ("cube4D", 2, "DgGhH", 4, 60)]
+    for kind, maxdiv, alphabet, length, limit in hplan:
+        recs, nseq = short_histories(kind, maxdiv, alphabet, length, rng, limit)
+        for i, r in enumerate(recs):
+            r["tid"] = i
+        rejects = ctx.validate("Polytope_Trace", f"Polytope_Trace_{kind}.cfg", recs, name=f"hist_{kind}", timeout=2400, count_traces=nseq)
+        for tid, clause, _ in rejects:
+            r = recs[tid]
+            what = {"get": lambda: f"get_nodes(N={r['n']}, projection={r['proj']})", "half": lambda: f"get_half_of_hypercube(N={r['n']}, projection={r['proj']})"}.get(r["ev"], lambda: r["ev"])()
+            ctx.violation(f"{KINDS[kind]} history '{r.get('history', r.get('when', ''))}': {what}: {clause}",
+                          dict(kind=kind, history=r.get("history"), event={k: v for k, v in r.items() if k not in ("nodes", "edges", "rows")}, clause=clause))
+        ctx.count(nseq)
+        ctx._nontrivial.update((kind, "h", r.get("history")) for r in recs if r.get("history"))
     ctx.cov["exhaustive"] = True
